@@ -580,7 +580,7 @@ func Files(j *job.Job, s *job.Sink) {
 				layout = append(layout, map[string]string{"dir": d, "file": base + ".yang/", "marker": "(directory)"})
 			}
 		}
-		// A second module, zzy, has a file in every directory: whatever the first fetch found
+		// A second module, zzy, has a file in every directory of the search path: whatever the first fetch found
 		// and wherever, the second one starts at the front of the search path again.
 		dirOf := map[string]string{}
 		for _, d0 := range dirs {
@@ -589,6 +589,9 @@ func Files(j *job.Job, s *job.Sink) {
 				d = filepath.Join(d0, sub)
 			}
 			dirOf[d0] = d
+			if d0 == "cwd" {
+				continue // (the current directory comes before the search path; the path is what is tested here)
+			}
 			os.WriteFile(filepath.Join(root, d, "zzy.yang"), []byte(mod("zzy", "zy-"+d0, "")), 0o644)
 		}
 		// expectation: first directory (cwd first) holding a candidate
@@ -680,12 +683,12 @@ func Files(j *job.Job, s *job.Sink) {
 		// the second fetch
 		if rerr := ms.Read("zzy"); rerr != nil {
 			viol("second-fetch-failed", rerr.Error())
-		} else if m := ms.Modules["zzy"]; m == nil || len(m.Leaf) == 0 || m.Leaf[0].Name != "zy-cwd" {
+		} else if m := ms.Modules["zzy"]; m == nil || len(m.Leaf) == 0 || m.Leaf[0].Name != "zy-"+dirs[1] {
 			got := "nothing"
 			if m != nil && len(m.Leaf) > 0 {
 				got = m.Leaf[0].Name
 			}
-			viol("second-fetch-wrong-file", fmt.Sprintf("after the fetch of %s, zzy was taken from %s; the current directory holds zzy.yang and comes first", base, got))
+			viol("second-fetch-wrong-file", fmt.Sprintf("after the fetch of %s, zzy was taken from %s; %s holds zzy.yang and comes first in the search path", base, got, dirs[1]))
 		}
 		s.Count("second_fetches", 1)
 		os.Chdir(start)
